@@ -590,6 +590,16 @@ func (d *Device) asaDelLine(line string) string {
 		d.Lines = appendUnique(d.Lines, "no sysopt connection permit-vpn")
 		return "accepted"
 	}
+	if len(w) == 4 && w[0] == "tunnel-group" && w[2] == "type" && d.hasLine(line) {
+		for _, b := range d.Blocks {
+			if strings.HasPrefix(b.Header, "tunnel-group "+w[1]+" ") {
+				// Change of the type of a tunnel-group that still has
+				// attribute sections: what an ASA does with them is not
+				// known to this model.
+				return "unmodelled"
+			}
+		}
+	}
 	if d.isBlockHeader(line) {
 		if d.removeBlocks(func(b *Block) bool { return b.Header == line }) == 0 {
 			return "rejected:delete-of-absent-object " + line
